@@ -357,25 +357,17 @@ def swapAt (ind1 ind2 : List Prim) (c1 c2 : List Nat) (tp : Tape) : Option (List
         | _, _ => none
       | _, _ => none
 
-/-- `cxOnePoint` (gp.py:663-700) -/
+/-- `cxOnePoint` (gp.py:684-714; the per-type index lists are always built) -/
 def cxOnePoint (ind1 ind2 : List Prim) (tp : Tape) : Option (List Prim × List Prim × Tape) :=
-  if ind1.length < 2 ∨ ind2.length < 2 then some (ind1, ind2, tp)       -- :671
+  if ind1.length < 2 ∨ ind2.length < 2 then some (ind1, ind2, tp)       -- :691
   else
-    match ind1 with
-    | [] => none
-    | r :: _ =>
-      if r.ret = objT then                                               -- :678
-        match popPick [objT] tp with
-        | none => none
-        | some (_, tp) => swapAt ind1 ind2 (idxFrom1 (fun _ => true) ind1) (idxFrom1 (fun _ => true) ind2) tp
-      else
-        let common := commonTypes (fun _ => true) (fun _ => true) ind1 ind2
-        if common.length > 0 then                                        -- :690
-          match popPick common tp with
-          | none => none
-          | some (τ, tp) =>
-            swapAt ind1 ind2 (idxFrom1 (fun p => p.ret == τ) ind1) (idxFrom1 (fun p => p.ret == τ) ind2) tp
-        else some (ind1, ind2, tp)
+    let common := commonTypes (fun _ => true) (fun _ => true) ind1 ind2  -- :696-702
+    if common.length > 0 then                                            -- :704
+      match popPick common tp with                                       -- :705
+      | none => none
+      | some (τ, tp) =>
+        swapAt ind1 ind2 (idxFrom1 (fun p => p.ret == τ) ind1) (idxFrom1 (fun p => p.ret == τ) ind2) tp
+    else some (ind1, ind2, tp)
 
 /-- `terminal_op = partial(eq, 0)` / `primitive_op = partial(lt, 0)` (gp.py:726-727) -/
 def arityOp (terminal : Bool) (p : Prim) : Bool := if terminal then p.arity == 0 else decide (0 < p.arity)
